@@ -4,7 +4,7 @@ use lightmotif::num::*;
 use lightmotif::scan::Scanner;
 use lightmotif::scores::StripedScores;
 use rand::Rng;
-use serde_json::json;
+use serde_json::{json, Value};
 
 use crate::c01::{build_pssm, build_seq, GS};
 use crate::pipe::*;
@@ -219,9 +219,13 @@ fn big_shapes(thorough: bool, rng: &mut impl Rng) -> Vec<(usize, usize, usize)> 
 
 /// Sequences exactly as long as the motif (one valid position) and one symbol longer, for a range of widths, on every arm.
 fn exact_fit(rec: &mut Recorder, r: &mut impl Rng, thorough: bool, k_mode: Option<()>) {
-    let widths: Vec<usize> = if thorough { (1..=24).collect() } else { vec![1, 2, 3, 5, 8, 13, 20] };
+    // widths up to 24, and motifs longer than the 32 columns of the striped layout (the last rows of the score table
+    // then hold padding only)
+    let mut widths: Vec<usize> = if thorough { (1..=24).collect() } else { vec![1, 2, 3, 5, 8, 13, 20] };
+    widths.extend(if thorough { vec![33usize, 40, 48, 64, 98] } else { vec![33usize, 48, 64] });
     for (i, &m) in widths.iter().enumerate() {
-        for extra in [0usize, 1] {
+        for extra in [0usize, 1, 2] {
+            if extra == 2 && m < 32 { continue; }
             let l = m + extra;
             let mut inp = gen_input(r, l, m, 7 * i + extra, false);
             // thresholds that the only window(s) can meet
@@ -231,8 +235,8 @@ fn exact_fit(rec: &mut Recorder, r: &mut impl Rng, thorough: bool, k_mode: Optio
             inp.thr = thr; inp.thr_kind = kind;
             for arm in Arm::all() {
                 match k_mode {
-                    None => history(rec, &inp, arm, [1usize, 256][i % 2], None, false, "exact_fit"),
-                    Some(()) => history(rec, &inp, arm, [256usize, 1][i % 2], Some(0), false, "max_exact_fit"),
+                    None => history(rec, &inp, arm, if m > 32 { [1usize, 2][extra % 2] } else { [1usize, 256][i % 2] }, None, false, "exact_fit"),
+                    Some(()) => history(rec, &inp, arm, if m > 32 { [1usize, 2][extra % 2] } else { [256usize, 1][i % 2] }, Some(0), false, "max_exact_fit"),
                 }
             }
             rec.class("sequence_as_long_as_the_motif");
@@ -240,8 +244,49 @@ fn exact_fit(rec: &mut Recorder, r: &mut impl Rng, thorough: bool, k_mode: Optio
     }
 }
 
+/// Iteration to exhaustion on a sequence with more than 65 536 striped rows and block sizes beyond that (see `huge_block`):
+/// the event carries the hits and the recorder's own naive list of qualifying positions.
+fn huge_scan(rec: &mut Recorder, r: &mut impl Rng, thorough: bool) {
+    let l: usize = 2_097_152 + 32 * r.gen_range(1..200) + r.gen_range(0..32);
+    let m = r.gen_range(3..=6);
+    let pssm = gen_pssm(r, m, 0);
+    let mut ranks = random_ranks::<A>(r, l, 0.0);
+    let cons: Vec<usize> = pssm.iter().map(|row| row[..KK - 1].iter().enumerate().max_by_key(|x| *x.1).unwrap().0).collect();
+    for _ in 0..3 { let p = r.gen_range(0..l - m); ranks[p..p + m].copy_from_slice(&cons); }
+    let scores = window_scores(&pssm, &ranks);
+    let best = *scores.iter().max().unwrap();
+    let mat = build_pssm::<A>(&pssm);
+    let mut seq = build_seq::<A, U32>(&ranks, 0);
+    seq.configure(&mat);
+    let sizes: Vec<usize> = if thorough { vec![65_536, 65_537, 1 << 20, usize::MAX] } else { vec![usize::MAX] };
+    for &bs in &sizes {
+        let thr4 = best - 2;
+        let want: Vec<Value> = scores.iter().enumerate().filter(|(_, &s)| s >= thr4).map(|(i, &s)| json!([i, s])).collect();
+        force(Some(Arm::Avx2));
+        let res = guarded(|| {
+            let mut sc = Scanner::new(&mat, &seq);
+            sc.threshold(ungrid(thr4, GS)).block_size(bs);
+            let mut hits: Vec<(usize, Value)> = Vec::new();
+            for h in sc.by_ref().take(want.len() + 3) { hits.push((h.position(), grid(h.score(), GS))); }
+            hits.sort_by_key(|x| x.0);
+            hits
+        });
+        force(None);
+        rec.reset();
+        let mut e = json!({"ev":"scan_big","arm":"avx2","L":l,"M":m,"bs": if bs == usize::MAX { -1 } else { bs as i64 },"thr":thr4,"want":want,"pssm":pssm});
+        match res {
+            Ok(h) => { e["ret"] = json!("ok"); e["hits"] = json!(h.iter().map(|(p, s)| json!([p, s])).collect::<Vec<_>>()); }
+            Err(msg) => { e["ret"] = json!("panic"); e["msg"] = json!(msg); e["hits"] = json!([]); }
+        }
+        rec.emit(e);
+        rec.class("more_than_65536_rows_block_size_beyond");
+        rec.nontrivial(&("huge_scan", l, m, bs, thr4));
+    }
+}
+
 pub fn record_c02(rec: &mut Recorder, seed: u64, thorough: bool) {
     let mut r = rng(seed, 2);
+    huge_scan(rec, &mut r, thorough);
     wildcard_sites(rec, &mut r, thorough, None);
     exact_fit(rec, &mut r, thorough, None);
     let mut kind = 0;
